@@ -443,7 +443,7 @@ def run(tier, seed):
                   'the same on a second function wrapped by the same decorator} for mutable fallbacks (try_list, value=[..], {..}, set) and {succeeds, raises} for immutable ones. '
                   'A case is non-trivial when the call passes at least one argument; distinct by (shape, call, decorator)'
                   % (3 if quick else 4, 'those holding a twin pair' if quick else 'all', len(HASH_CALLS), 4 if quick else 5),
-                  exhaustive=True, scope='60 signature shapes x all positional/keyword splits x 7 decorators; all stacks <= 3; all cache histories <= %d over 12 calls' % (3 if quick else 4))
+                  exhaustive=True, scope='60 signature shapes x all positional/keyword splits x 7 decorators; all stacks <= 3; all cache histories <= %d over 12 calls; hash-equal argument histories <= 2 (3 with a twin pair%s) over %d calls; try_* call histories <= %d' % (3 if quick else 4, '' if quick else ' or without', len(HASH_CALLS), 4 if quick else 5))
     take = _sampler(3)
     for shape in shapes():
         calls = list(valid_calls(*shape))
